@@ -278,6 +278,47 @@ def cross_group_script(rng, i):
     return {"name": f"c03-x{i}", "suite": 1, "members": members, "ops": ops}, cross
 
 
+def stale_group_info_script(rng, i):
+    """A GroupInfo handed to MEMBERS (process_incoming_message): the one of the current epoch is accepted, the same
+    bytes are refused once the group has moved on - also when the move left the ratchet tree byte-identical (a commit
+    without a path: PSK only), with the tree in the extension or not."""
+    members = [{"name": n} for n in "ABC"]
+    ops = [{"op": "create", "who": "A"}, {"op": "kp", "who": "B", "id": "kB"}, {"op": "kp", "who": "C", "id": "kC"},
+           {"op": "commit", "who": "A", "id": "c0", "add": ["kB", "kC"]}, {"op": "apply", "who": "A"},
+           {"op": "join", "who": "B", "welcome_any": "c0"}, {"op": "join", "who": "C", "welcome_any": "c0"}]
+    for n in "ABC":
+        ops.append({"op": "psk_insert", "who": n, "psk_id": "aa01", "value": "0102030405060708"})
+        ops.append({"op": "opts", "who": n, "encrypt_controls": False, "path_required": False})
+    signer = "ABC"[i % 3]
+    gis = []
+    for te in (True, False):
+        for xc in (False, True):
+            gid = f"gi{int(te)}{int(xc)}"
+            ops.append({"op": "group_info", "who": signer, "id": gid, "ext_commit": xc, "tree_ext": te})
+            gis.append(gid)
+    # control: members of the epoch it was made in accept it
+    for gid in gis:
+        for r in [m for m in "ABC" if m != signer]:
+            ops.append({"op": "deliver", "to": r, "msg": gid})
+    c = [m for m in "ABC" if m != signer][i % 2]
+    if i % 4 < 3:
+        ops.append({"op": "commit", "who": c, "id": "c1", "psk": ["aa01"]})           # no path: the tree stays as it is
+    else:
+        ops.append({"op": "opts", "who": c, "path_required": True})
+        ops.append({"op": "commit", "who": c, "id": "c1"})
+    for m in "ABC":
+        if m != c:
+            ops.append({"op": "deliver", "to": m, "msg": "c1"})
+    ops.append({"op": "apply", "who": c})
+    stale = []
+    for gid in gis:
+        for r in "ABC":
+            ops.append({"op": "deliver", "to": r, "msg": gid, "snap_before": True, "observe": r})
+            stale.append((len(ops) - 1, gid, r))
+    ops.append({"op": "observe", "who": "A", "observe": "all"})
+    return {"name": f"c03-gi{i}", "suite": 1, "members": members, "ops": ops}, stale
+
+
 def main(run, args):
     rng = Rng(run.seed)
     run.assumptions += [
@@ -301,7 +342,8 @@ def main(run, args):
     items = [build_script(rng, i, quick) for i in range(3 if quick else 24)]
     xs = [cross_group_script(rng, i) for i in range(1 if quick else 4)]
     lates = [late_reuse_script(rng, i) for i in range(8 if quick else 60)]
-    recs = run_scripts([x[0] for x in items] + [x[0] for x in xs] + [x[0] for x in lates], timeout=3000)
+    gis = [stale_group_info_script(rng, i) for i in range(4 if quick else 16)]
+    recs = run_scripts([x[0] for x in items] + [x[0] for x in xs] + [x[0] for x in lates] + [x[0] for x in gis], timeout=3000)
     failing = []
     totals = {k: {"variants": 0, "errors": {}, "accepted_same_effect": 0} for k in KINDS}
     n_truth = n_insider = n_replay = n_cross = 0
@@ -408,6 +450,24 @@ def main(run, args):
                 failing.append(dict(ctx, what="a message of ANOTHER group was accepted", result=r.get("info")))
             elif "snap_before" in r and (r.get("obs") or {}).get(rcv, {}).get("snap") != r["snap_before"]:
                 failing.append(dict(ctx, what="state changed by a refused message of another group"))
+    n_stale_gi = 0
+    for (sc, stale), rs in zip(gis, recs[len(items) + len(xs) + len(lates):]):
+        byi = {r["i"]: r for r in rs if "i" in r}
+        staleidx = {k for k, _, _ in stale}
+        setup_bad = [r for r in rs if (r.get("ok") is False or r.get("crash")) and r.get("i") not in staleidx]
+        if setup_bad:
+            failing.append({"what": "a GroupInfo of the current epoch was refused by a member, or the history could not be built", "script": sc["name"], "record": setup_bad[0], "op": sc["ops"][setup_bad[0].get("i", 0)]})
+            continue
+        for (k, mid, rcv) in stale:
+            r = byi.get(k, {})
+            n_stale_gi += 1
+            ctx = {"script": sc["name"], "op": sc["ops"][k], "ops": sc["ops"][max(0, k - 14):k + 1]}
+            if r.get("err") == "PANIC":
+                failing.append(dict(ctx, what="PANIC on a stale GroupInfo"))
+            elif r.get("ok") is not False:
+                failing.append(dict(ctx, what="a GroupInfo of an EARLIER epoch was accepted by a member (replay across epochs)", result=r.get("info")))
+            elif "snap_before" in r and (r.get("obs") or {}).get(rcv, {}).get("snap") != r["snap_before"]:
+                failing.append(dict(ctx, what="state changed by a refused GroupInfo"))
     # ---- framing tie in Coq
     mism = []
     coq_cases = 0
@@ -494,6 +554,7 @@ def main(run, args):
         "replays": n_replay,
         "late_messages_after_leaf_changed_hands": n_late,
         "cross_group_deliveries": n_cross,
+        "stale_group_infos_to_members": n_stale_gi,
         "framing_cases_in_coq": coq_cases,
         "signatures_checked_over_model_bytes": sig_checked,
         "histories": len(items) + len(xs),
